@@ -394,10 +394,7 @@ where
             .store()
             .subslice_utf8_offset(self.text())
             .expect("subslice should succeed");
-        Ok(self
-            .store()
-            .utf8byte_to_charpos(self.absolute_cursor(beginbyte + bytecursor))?
-            - self.begin())
+        Ok(self.store().utf8byte_to_charpos(beginbyte + bytecursor)? - self.begin())
     }
 
     fn absolute_cursor(&self, cursor: usize) -> usize {
@@ -586,10 +583,7 @@ where
             .store()
             .subslice_utf8_offset(self.text())
             .expect("subslice should succeed");
-        Ok(self
-            .store()
-            .utf8byte_to_charpos(self.absolute_cursor(beginbyte + bytecursor))?
-            - self.begin())
+        Ok(self.store().utf8byte_to_charpos(beginbyte + bytecursor)? - self.begin())
     }
 
     fn absolute_cursor(&self, cursor: usize) -> usize {
